@@ -405,6 +405,35 @@ class GraphModels:
                 ex.writeback(o)
                 return None
             return NotImplemented
+        if name == "update" and isinstance(recv, Ref) and isinstance(st.heap[recv.id], SetObj) and len(args) == 1 and \
+                isinstance(args[0], tuple) and len(args[0]) == 2 and args[0][0] == "*":
+            # s.update(*(set_i for i in ...)): s | union of the sets produced by the generator (same skolemised description as _chain)
+            o = st.heap[recv.id]
+            gen = ex.to_iter(args[0][1], lineno)
+            bi = st.fresh_int("bi")
+            e = gen.elem(bi)
+            eo = st.heap[e.id] if isinstance(e, Ref) else None
+            if not isinstance(eo, SetObj):
+                raise Unsupported("set.update(*iterables) over non-set iterables")
+            if o.is_empty_literal:
+                o.k, o.member, o.is_empty_literal = eo.k, z3.K(eo.k.sort(), z3.BoolVal(False)), False
+            i = z3.Int("i!su")
+            k = z3.Const("k!su", o.k.sort())
+            old = o.member
+            mem = st.fresh_const("sumem", z3.ArraySort(o.k.sort(), B))
+            wit = st.fresh_const("suwit", z3.ArraySort(o.k.sort(), I))
+            at = lambda x: z3.substitute(eo.member, (bi, x))  # noqa: E731
+            st.assume(_forall([k], z3.Implies(mem[k], z3.Or(old[k], z3.And(0 <= wit[k], wit[k] < gen.n, at(wit[k])[k]))), patterns=[mem[k]]))
+            st.assume(_forall([k], z3.Implies(old[k], mem[k]), patterns=[old[k]] if _pat_ok(old[k]) else None))
+            st.assume(_forall([i, k], z3.Implies(z3.And(0 <= i, i < gen.n, at(i)[k]), mem[k]), patterns=[at(i)[k]] if _pat_ok(at(i)[k]) else None))
+            n = st.fresh_int("sun")
+            o.member = mem
+            st.assume(n >= o.n)
+            o.n = n
+            for f in o.wf_facts(st):
+                st.assume(f)
+            ex.writeback(o)
+            return None
         if name == "conv.is_continuous" and isinstance(recv, ConverterV):
             return SV(is_continuous(recv.d, z3.BoolVal(recv.which == "in"), TStr.embed(st, args[0])), TBool)
         if name == "has_names" and isinstance(recv, Ref) and getattr(st.heap[recv.id], "grammar_of", None) is not None:
